@@ -118,7 +118,7 @@ _reg(Tool("enumerate", "iter", (1, 1),
 _reg(Tool("iter_sentinel", "iter", (1, 1),
           lambda S, F, P, V: a.iter(S[0], V["sentinel"]),
           lambda S, F, P, V: builtins.iter(S[0], V["sentinel"]),
-          callsrc=True, profiles=(I, N, 'grumpy-eq')))
+          callsrc=True, profiles=(I, N, 'grumpy-eq', 'eq-all')))
 _reg(Tool("accumulate", "iter", (1, 1),
           lambda S, F, P, V: (a.accumulate(S[0], F["fn"], **_kw(initial=_opt(V, "initial")))
                               if "fn" in F else
@@ -224,11 +224,11 @@ _reg(Tool("reduce", "agg", (1, 1),
 _reg(Tool("nlargest", "agg", (1, 1),
           lambda S, F, P, V: a.nlargest(S[0], P["n"], key=F.get("key")),
           lambda S, F, P, V: heapq.nlargest(P["n"], S[0], key=F.get("key")),
-          optional_roles=(("key", "table"),), profiles=(I, N, 'grumpy-order'), window=None))
+          optional_roles=(("key", "table"),), profiles=(I, N, 'grumpy-order', "unorderable"), window=None))
 _reg(Tool("nsmallest", "agg", (1, 1),
           lambda S, F, P, V: a.nsmallest(S[0], P["n"], key=F.get("key")),
           lambda S, F, P, V: heapq.nsmallest(P["n"], S[0], key=F.get("key")),
-          optional_roles=(("key", "table"),), profiles=(I, N, 'grumpy-order'), window=None))
+          optional_roles=(("key", "table"),), profiles=(I, N, 'grumpy-order', "unorderable"), window=None))
 
 ITER_TOOLS = [t.name for t in TOOLS.values() if t.kind == "iter"]
 AGG_TOOLS = [t.name for t in TOOLS.values() if t.kind == "agg"]
